@@ -13,7 +13,7 @@ from types import SimpleNamespace
 from .. import e2e, realcall
 from ..common import Hang, hx, unhx, watchdog
 from ..runner import Check
-from . import c11_dups
+from . import c11_dups, c11_repoint
 
 # ---------------------------------------------------------------------------------------------
 # graphs
@@ -1464,6 +1464,8 @@ def run(ck: Check) -> None:
     guarded(ck, campaign_sort_models, 600 if quick else 6000)
     guarded(ck, campaign_e2e, 240 if quick else 2000)
     guarded(ck, campaign_reuse, 200 if quick else 2000)
+    guarded(ck, c11_repoint.campaign_replace_reference, 400 if quick else 4000)
+    guarded(ck, c11_repoint.campaign_passes, 150 if quick else 1500)
     guarded(ck, campaign_e2e_post, 120 if quick else 900)
     guarded(ck, campaign_e2e_deep, 10 if quick else 60)
     guarded(ck, campaign_e2e_modular, 80 if quick else 400)
